@@ -529,6 +529,12 @@ type c13Sess struct {
 // open establishes a session deterministically: version handshake (allocates the id), then the options
 // through the real commands. No background poller exists.
 func (n *c13Net) open(idx int, cfg c13Cfg, key uint64, who string) (*c13Sess, string) {
+	return n.openOpt(idx, cfg, key, who, false)
+}
+
+// openOpt: with byAddr the server-side connection is the first one the listener delivers for this address, whatever its
+// id (for scenarios in which every address opens one session only); the caller compares s.user.UserId with s.id.
+func (n *c13Net) openOpt(idx int, cfg c13Cfg, key uint64, who string, byAddr bool) (*c13Sess, string) {
 	addr := vAddr(idx)
 	comm := newVClientComm(n.scomm, addr)
 	client, err := NewClientDnsConnection(c13Domain, comm)
@@ -539,14 +545,42 @@ func (n *c13Net) open(idx int, cfg c13Cfg, key uint64, who string) (*c13Sess, st
 	client.Serializer.Upstream.QueryType = &qt
 	client.Serializer.Upstream.Encoder = enc.Base32Encoding
 	client.Serializer.Downstream.Encoder = enc.Base32Encoding
+	var lastAnswer []byte
+	if byAddr {
+		comm.OnExchange = func(q, a []byte) { lastAnswer = a }
+	}
 	if err := client.VersionHandshake(); err != nil {
 		return nil, "version:" + c13ErrName(err)
+	}
+	if byAddr {
+		comm.OnExchange = nil
+		// On this tree ClientDnsConnection.VersionHandshake does not look at the Err field of a VersionResponse: a refusal
+		// (VFUL, VNAK) comes back as success with the id field's filler "00". The answer on the wire decides here.
+		a := new(mdns.Msg)
+		if lastAnswer == nil || a.Unpack(lastAnswer) != nil {
+			return nil, "version:unreadable-answer"
+		}
+		if res, _ := c13Result(a, nil, enc.Base32Encoding); res != "ok" {
+			n.rec.Seen("refused_handshakes_the_real_client_reports_as_success(diagnostic, not a verdict)", fmt.Sprintf("%s -> client continues as id %d", res, client.userId))
+			// ... and the real client would go on with that id from its own address: it must be turned away like any foreigner
+			// (the recorder and the offline check judge the answer)
+			_, _ = c13Raw(comm, &commands.PacketRequest{UserId: client.userId, LastAckedSeqNo: 65535}, qt, enc.Base32Encoding)
+			return nil, "version:" + res
+		}
 	}
 	s := &c13Sess{n: n, idx: idx, addr: addr, comm: comm, client: client, id: int(client.userId), cfg: cfg, who: who,
 		keyUp: key*2 + 1, keyDown: key*2 + 2}
 	n.addKey(s.keyUp, who+"/c2s")
 	n.addKey(s.keyDown, who+"/s2c")
-	if s.user = n.waitAccept(addr.String(), client.userId); s.user == nil {
+	if byAddr {
+		select {
+		case s.user = <-n.waiter(addr.String()):
+		case <-time.After(30 * time.Second):
+		}
+	} else {
+		s.user = n.waitAccept(addr.String(), client.userId)
+	}
+	if s.user == nil {
 		return nil, "accept-timeout"
 	}
 	if cfg.Up != "Base32" {
